@@ -298,3 +298,18 @@ B("c08-knapsack-next-is-state", "C08", "C08.R3", (P + "knapsack/env.py", "Knapsa
 B("c08-minesweeper-stride", "C08", "C08.R2", (L + "minesweeper/utils.py", "explored_mine", "expr", "state.board.shape[-1]", "state.board.shape[-2]"))
 T("c08-twin-kwargs", "C08", (R + "tsp/env.py", "TSP.step", "expr", "self.reward_fn(state, action, next_state, is_valid)", "self.reward_fn(state=state, action=action, next_state=next_state, is_valid=is_valid)"))
 T("c08-twin-done-commuted", "C08", (P + "bin_pack/env.py", "BinPack.step", "expr", "~jnp.any(next_state.action_mask) | ~action_is_valid", "~action_is_valid | ~jnp.any(next_state.action_mask)"))
+
+# ---------------------------------------------------------------- border tests (C07.R5 / C04.R9 / C09.R6)
+B("c07-maze-row-gt0", "C07", "C07.R5", (R + "maze/env.py", "Maze._compute_action_mask", "expr", "row >= 0", "row > 0"))
+B("c07-maze-col-le", "C07", "C07.R5", (R + "maze/env.py", "Maze._compute_action_mask", "expr", "col < self.num_cols", "col <= self.num_cols"))
+B("c04-maze-inbounds-or", "C04", "C04.R9", (R + "maze/env.py", "Maze._compute_action_mask", "expr", "(row >= 0) & (row < self.num_rows)", "(row >= 0) | (row < self.num_rows)"))
+B("c04-snake-valid-or", "C04", "C04.R9", (R + "snake/env.py", "Snake._get_action_mask", "expr", "~outside_board & ~head_bumps_body", "~outside_board | ~head_bumps_body"))
+B("c07-snake-row-gt", "C07", "C07.R5", (R + "snake/env.py", "Snake._get_action_mask", "expr", "new_head_position.row >= self.num_rows", "new_head_position.row > self.num_rows"))
+B("c09-lbf-ge-to-gt", "C09", "C09.R6", (R + "lbf/utils.py", "simulate_agent_movement", "expr", "new_position >= grid_size", "new_position > grid_size"))
+B("c07-connector-row-le", "C07", "C07.R5", (R + "connector/utils.py", "is_valid_position", "expr", "row < grid_size", "row <= grid_size"))
+B("c07-cleaner-x-le0", "C07", "C07.R5", (R + "cleaner/env.py", "Cleaner._compute_action_mask", "expr", "x >= 0", "x > 0"))
+T("c07-twin-maze-flipped", "C07", (R + "maze/env.py", "Maze._compute_action_mask", "expr", "row >= 0", "0 <= row"))
+T("c07-twin-maze-not-lt", "C07", (R + "maze/env.py", "Maze._compute_action_mask", "expr", "row >= 0", "~(row < 0)"))
+T("c07-twin-maze-le-minus1", "C07", (R + "maze/env.py", "Maze._compute_action_mask", "expr", "col < self.num_cols", "col <= self.num_cols - 1"))
+T("c04-twin-snake-demorgan", "C04", (R + "snake/env.py", "Snake._get_action_mask", "expr", "~outside_board & ~head_bumps_body", "~(outside_board | head_bumps_body)"))
+T("c07-twin-snake-logical", "C07", (R + "snake/env.py", "Snake._get_action_mask", "expr", "~outside_board & ~head_bumps_body", "jnp.logical_and(jnp.logical_not(outside_board), jnp.logical_not(head_bumps_body))"))
